@@ -80,11 +80,23 @@ class DenseBlockDiagonalOperator(AbstractLinearOperator):
         return jax.tree.map(ft.partial(jnp.einsum, self.subscripts), self.blocks, x)
 
     def transpose(self) -> AbstractLinearOperator:
-        return DenseBlockDiagonalOperator(
+        transposed = DenseBlockDiagonalOperator(
             self.blocks,
             self.out_structure(),
             self._get_transposed_subscripts(self.subscripts),
         )
+        # when einsum broadcasts an axis of the blocks against the input (a contracted axis of size one, blocks
+        # with more batch dimensions than the input), swapping the subscripts does not give the transpose
+        try:
+            out_shapes = jax.tree.map(lambda leaf: leaf.shape, transposed.out_structure())
+        except (TypeError, ValueError):
+            out_shapes = None
+        if out_shapes != jax.tree.map(lambda leaf: leaf.shape, self.in_structure()):
+            raise ValueError(
+                f'The operator cannot be transposed by rewriting the subscripts {self.subscripts!r}: '
+                f'the blocks are broadcast against the input.'
+            )
+        return transposed
 
     def in_structure(self) -> PyTree[jax.ShapeDtypeStruct]:
         return self._in_structure
